@@ -499,6 +499,40 @@ pub fn run(ctx: &Ctx) -> (Stats, Report) {
         });
         st.merge(s);
     }
+    // E1d: fixed-width name tokens (three-letter weekday and month, meridian) glued to each other
+    // without any separator, over every (month, weekday) combination
+    {
+        let pics = [
+            "YYYY-DD DYMON", "DyMon DD, YYYY", "YYYY DD MONDY", "monDY YYYY-DD", "YYYY-MM-DD DYAM HH:MI:SS", "YYYY-DD MONPM HH:MI:SS", "YYYY-MM-DD HH:MI:SS AMDY", "YYYY DD HH:MI:SS P.M.Mon", "DYMON DD YYYY HH24:MI:SS.FF6",
+            "dyMonDD YYYY", "YYYYMonDD HH24MISS", "DDMONYYYY",
+        ];
+        let c = cal();
+        let mut days: Vec<i128> = vec![];
+        for m in 1..=12 {
+            for d in 8..=14 {
+                days.push(c.lookup(2024, m, d).unwrap() as i128);
+            }
+        }
+        for pic in pics {
+            for (j, d) in days.iter().enumerate() {
+                let raw = d * US_PER_DAY + [0i128, 47_167_000_000, 86_399_000_000][j % 3];
+                for kind in [Kind::Date, Kind::Ts, Kind::Ora] {
+                    let toks = tokenize(pic).expect("valid picture");
+                    if !toks.iter().all(|t| crate::model::text::applicable(kind, t)) {
+                        continue;
+                    }
+                    // a picture without time fields carries a timestamp only at midnight
+                    let raw = if kind == Kind::Date { *d } else if pic.contains("HH") { raw } else { d * US_PER_DAY };
+                    st.evaluations += 1;
+                    st.class("glued-fixed-width-name-tokens");
+                    st.fps.push(hash_bytes(hash_ints(kind.index() as u64 + 0x62, &[raw]), pic.as_bytes()));
+                    if let Err(m) = check_roundtrip(kind, raw, pic) {
+                        st.fail(j as u64, case_of(kind, raw, pic), m);
+                    }
+                }
+            }
+        }
+    }
     st.section("name_tokens_x_separators", &mut mark);
 
     // concurrent histories: 16 threads round-trip their own values at once
@@ -519,7 +553,7 @@ pub fn run(ctx: &Ctx) -> (Stats, Report) {
     st.section("concurrent_histories", &mut mark);
 
     let rep = Report {
-        rule: "Lossless picture grammar per type (4-digit year + month [number / abbreviated / full name in any style] + day, or year + day of year, optional consistent day-of-year and weekday fields; 24-hour or 12-hour + one of the meridian spellings; minute, second; fraction FF / FFp with p large enough for the value; interval year/day first then the other fields), fields permuted, separators drawn from \"\" - / : . , ; \\ T and blank runs with a non-empty separator forced after variable-width fields and between name fields. E1: all dates x generated pictures (fresh per 4096-date chunk), all seconds x generated pictures on Time/Timestamp/OracleDate; E1b: boundary + binary-boundary pool values of every type (for Timestamp / OracleDate also times of day at 2^k us / ms / s and multiples of 2^31 / 2^32 us counted from midnight AND back from the next midnight, on boundary dates before and after 1970) x three fixed rich pictures carrying every consistent redundant field + one generated picture; E1c: every name / meridian token x every one- and two-token separator (punctuation and blank in both orders, two punctuation marks) x a following field, over dates covering every month and weekday; E2: proptest-generated values x pictures for all six types with shrinking; concurrent histories (16 threads). Oracle: parse(format(v,p),p) == v and format(that,p) == text byte for byte; the formatted text is also compared with the reference renderer so compensating errors cannot hide. Non-trivial = at least two value fields and one of: non-canonical order, a name field, 12-hour clock, extra consistency field, empty separator; distinct by (type, picture, value).".into(),
+        rule: "Lossless picture grammar per type (4-digit year + month [number / abbreviated / full name in any style] + day, or year + day of year, optional consistent day-of-year and weekday fields; 24-hour or 12-hour + one of the meridian spellings; minute, second; fraction FF / FFp with p large enough for the value; interval year/day first then the other fields), fields permuted, separators drawn from \"\" - / : . , ; \\ T and blank runs with a non-empty separator forced after variable-width fields and between name fields. E1: all dates x generated pictures (fresh per 4096-date chunk), all seconds x generated pictures on Time/Timestamp/OracleDate; E1b: boundary + binary-boundary pool values of every type (for Timestamp / OracleDate also times of day at 2^k us / ms / s and multiples of 2^31 / 2^32 us counted from midnight AND back from the next midnight, on boundary dates before and after 1970) x three fixed rich pictures carrying every consistent redundant field + one generated picture; E1c: every name / meridian token x every one- and two-token separator (punctuation and blank in both orders, two punctuation marks) x a following field, over dates covering every month and weekday; fixed-width name tokens (three-letter weekday / month, meridian) glued to each other and to fixed-width numbers without any separator, over every (month, weekday) combination; E2: proptest-generated values x pictures for all six types with shrinking; concurrent histories (16 threads). Oracle: parse(format(v,p),p) == v and format(that,p) == text byte for byte; the formatted text is also compared with the reference renderer so compensating errors cannot hide. Non-trivial = at least two value fields and one of: non-canonical order, a name field, 12-hour clock, extra consistency field, empty separator; distinct by (type, picture, value).".into(),
         assumptions: vec!["bare FF is treated as variable width on input (up to nine digits are read), FFp as exactly p digits".into()],
         exhaustive: false,
         extra: Default::default(),
